@@ -1550,7 +1550,8 @@ class Interp:
                     self._store_back(nd, fin, cenv, frame, cond)
         return t
 
-    def inline_closure(self, node_c, cenv, cframe, pos, kws, frame, cond):
+    def inline_closure(self, node_c, cenv, cframe, pos, kws, frame, cond,
+                       keep_raises=False):
         if isinstance(node_c, ast.Lambda):
             args = node_c.args
         else:
@@ -1566,6 +1567,8 @@ class Interp:
         outs = self.exec_block(node_c.body, env2, fr, cond)
         n = len(cond)
         rel = [Outcome(o.kind, o.env, o.value, o.cond[n:], o.lineno) for o in outs]
+        if keep_raises:
+            return combine(rel, keep_raises=True)
         return combine([o for o in rel if o.kind in ('return', 'fall')])
 
     # ------------------------------------------------------------------
